@@ -558,8 +558,13 @@ class Ctx:
             "wall_s": round(time.time() - self.t0, 2),
             "violations": len(self.violations),
         }
-        os.makedirs(os.path.join(VERIF, "evidence"), exist_ok=True)
-        with open(os.path.join(VERIF, "evidence", self.pid + ".json"), "w") as f:
+        # evidence/<id>.json describes a run against /repo itself; runs against another tree (VERIF_REPO=<clone>:
+        # seeded changes, mutation self-tests, the as-found tree) must not overwrite it
+        evdir = os.path.join(VERIF, "evidence") if os.path.realpath(REPO) == "/repo" else \
+            os.path.join(SCRATCH_ROOT, "esutil-verif-evidence-other-trees")
+        ev["repo"] = os.path.realpath(REPO)
+        os.makedirs(evdir, exist_ok=True)
+        with open(os.path.join(evdir, self.pid + ".json"), "w") as f:
             json.dump(ev, f, indent=1, default=str)
         shutil.rmtree(self.work, ignore_errors=True)
         # one VIOLATION line per distinct kind, failing inputs first
